@@ -1,11 +1,26 @@
-(** C04: last owner gone => Dropped; never while owned (Layer R) -- PARTIAL.
-    Proved: the translated strong count (rc/count.rs) is an exact counter below its saturation point: inc then dec
-    returns to the same word and reports "went to zero" exactly for the last owner; dropping an owner queues the
-    deferred terminate(Dropped) at the END of the main queue exactly in that case.  Not yet proved: the trace-level
-    statement for all programs (validated by ./check C04); known finding F7. *)
-From Coq Require Import ZArith NArith List.
+(** C04: last owner gone => Dropped; never while owned (Layer R) -- PARTIAL (two of the five clauses of the monitor
+    proved for every program; the census behind them closed).
+    C04_ok (rev t) = okx chkN t && okx chkR t && okx chkS t  ([C04_monitor_split]: the monitor is a total state
+    function [st04] plus three checks: at `notify a Dropped`, at `runret`, at `slablen`).
+    Proved for every program and fuel, global / thread-local deferrer, fewer than CMAX-1 events (the packed owner count
+    saturates at CMAX = 2^62-1: [C04_saturation]):
+      [C04_never_dropped_while_owned]  first clause of chkN: at every `notify a Dropped` the trace shows no visible
+          owner of a (EOwnNew a = EOwnDrop a so far);
+      [C04_last_owner_terminates]      first clause of chkR: when run returns, every actor that lost its last visible
+          owner (owned(), anon() and named handles) since the Stakker was created is notified.
+    Behind them ([C04_owner_census]): in every reachable configuration the count field of a cell's packed
+    CountAndState word (generated count_inc / count_dec) = number of owner handles of that actor anywhere in the
+    configuration (environment, frames, closure captures, Ret captures, actor state, slabs, held queues, queues,
+    timers, queued kill! items, pending owner drops) = invisible owners (slab entries, kill! items, un-logged drops)
+    + EOwnNew - EOwnDrop of the trace; the deferred terminate(Dropped) is queued exactly when it goes 1 -> 0.
+    The inline deferrer is excluded: a kill! queued while no Stakker exists parks an owner that is never released
+    ([C04_inline_deferrer_refuted]: C04_ok is false on the model trace).
+    Not yet proved (validated by ./check C04): second clause of chkN (the termination takes the drop's place in the
+    queue), second clause of chkR (slab children of a terminated parent terminate in the same run), chkS (slab.len()). *)
+From Coq Require Import ZArith NArith List Bool.
 Import ListNotations.
 From Stk Require Import Lib.U Gen.SrcCount R.Syntax R.Rt R.Mon R.Count R.OneStep.
+From Stk Require Import R.Own R.OwnLaw R.OwnVis R.C04Mon R.C04Base R.C04A3 R.C04B2.
 Local Open Scope Z_scope.
 
 Theorem C04_owner_count_partial :
@@ -20,3 +35,66 @@ Proof.
   split; [exact count_inc_dec|]. split; [exact count_dec_spec | exact drop_own_defers].
 Qed.
 Print Assumptions C04_owner_count_partial.
+
+(* the monitor = total state function + three checks *)
+Theorem C04_monitor_split : forall t : list ev, C04_ok (rev t) = okx chkN t && okx chkR t && okx chkS t.
+Proof. exact C04_ok_rev. Qed.
+Print Assumptions C04_monitor_split.
+
+(* the owner census is an invariant of every step *)
+Theorem C04_owner_census : forall k s k' s',
+  CallInv.KS s -> dk s = DGlobal -> Z.of_nat (length (tr s)) < CMAX - 1 -> OI k s -> step k s = Some (k', s') -> OI k' s'.
+Proof. exact step_OI. Qed.
+Print Assumptions C04_owner_census.
+
+(* never notified Dropped while a visible owner exists *)
+Theorem C04_never_dropped_while_owned : forall (p : list top) (fuel : nat) (t : list ev),
+  exec DGlobal fuel p = Done t -> Z.of_nat (length t) < CMAX - 1 ->
+  forall t1 a t2, t = t1 ++ ENotify a (Some CDrop) :: t2 -> vis a (rev t1) <= 0.
+Proof. exact C04_never_while_owned_spec. Qed.
+Print Assumptions C04_never_dropped_while_owned.
+
+Theorem C04_never_dropped_while_owned_chk : forall (p : list top) (fuel : nat) (t : list ev),
+  exec DGlobal fuel p = Done t -> Z.of_nat (length t) < CMAX - 1 -> okx chkN1 (rev t) = true.
+Proof. exact C04_never_while_owned_proved. Qed.
+Print Assumptions C04_never_dropped_while_owned_chk.
+
+(* last owner gone => notified by the time run returns *)
+Theorem C04_last_owner_terminates : forall (p : list top) (fuel : nat) (t : list ev),
+  exec DGlobal fuel p = Done t -> Z.of_nat (length t) < CMAX - 1 -> okx chkR1 (rev t) = true.
+Proof. exact C04_last_owner_terminates_proved. Qed.
+Print Assumptions C04_last_owner_terminates.
+
+(* satisfiable, non-trivially: owned() / anon() owners dropped in any order with a call pending, a kill! holding a hidden
+   owner past the last visible one *)
+Definition c04_prog : list top :=
+  [TNew 0;
+   TDo [ANewActor 1 1 None; ACallPrep 1 (Clo 1 0 0 [] []) true; AOwned 1 2; AAnon 2 3; ACall 1 (Clo 2 0 0 [] []);
+        ADropH 1; ADropH 3];
+   TRun 1 false;
+   TDo [ANewActor 4 2 None; AKillAsync 4 7; ADropH 4];
+   TRun 2 false].
+
+Example C04_example :
+  exists t, exec DGlobal 3000 c04_prog = Done t /\ Z.of_nat (length t) < CMAX - 1 /\ C04_ok t = true /\
+            In (ENotify 1 (Some CDrop)) t /\ In (ENotify 2 (Some (CKill 7))) t /\
+            okx chkN1 (rev t) = true /\ okx chkR1 (rev t) = true.
+Proof.
+  eexists. split; [vm_compute; reflexivity|]. split; [vm_compute; reflexivity|]. split; [vm_compute; reflexivity|].
+  split; [simpl; tauto|]. split; [simpl; tauto|]. split; vm_compute; reflexivity.
+Qed.
+
+(* the inline deferrer is outside the claim: a kill! queued while no Stakker exists is forgotten with its owner *)
+Definition c04_inline : list top :=
+  [TNew 0; TDo [ANewActor 1 1 None]; TDropStakker; TDo [AKillAsync 1 5]; TNew 0; TDo [ADropH 1]; TRun 0 false].
+
+Example C04_inline_deferrer_refuted :
+  (exists t, exec DInline 2000 c04_inline = Done t /\ C04_ok t = false /\ okx chkR1 (rev t) = false) /\
+  (exists t, exec DGlobal 2000 c04_inline = Done t /\ C04_ok t = true).
+Proof. split; eexists; (split; [vm_compute; reflexivity|]); repeat split; vm_compute; reflexivity. Qed.
+
+(* the bound: at CMAX the generated count saturates (inc is the identity) and never comes down again *)
+Example C04_saturation :
+  count_inc (pack CMAX 0) = Some (pack CMAX 0) /\ count_dec (pack CMAX 0) = Some (pack CMAX 0, false) /\
+  count_inc (pack (CMAX - 1) 0) = Some (pack CMAX 0).
+Proof. vm_compute. repeat split. Qed.
